@@ -17,6 +17,7 @@ RULE = ("random refreshed PUBO/PUSO/PCBO/PCSO models (3-7 variables for the tabl
         "callable 2|v|+1}, optional pairs hints. Non-trivial = the produced form contains >= 1 ancilla; "
         "distinct = digest of (class, terms, mapping, form, deg, lam kind, pairs)"
         ' Also: enumerations chosen before the terms exist (set_mapping on the empty model), callable penalties of every kind, convert_solution with the spin flag omitted / contradicting a solution that is not all ones, rows where only ancillas differ from an all-ones model assignment, typed coefficients (Fraction, numpy, sympy), a second conversion after in-place edits.')
+RULE += " Rounds 9-10: models with an earlier life over other labels then clear() (no refresh), siblings of a common ancestor that each grow by a variable of their own, accessor copies (mapping / reverse_mapping) edited by the caller before the conversion."
 TIERS = {"quick": {"shards": 8, "cases": 500}, "thorough": {"shards": 16, "cases": 12000}}
 FLOOR_BASE = {"quick": 230, "thorough": 6000}    # case counts the floors below were calibrated for; the launcher scales them
 CLASSES = ["PUBO", "PUSO", "PCBO", "PCSO"]
